@@ -6,7 +6,21 @@ ROOT = os.path.dirname(os.path.dirname(os.path.abspath(__file__)))
 ALL = ["C%02d" % i for i in range(1, 21)]
 
 # property -> dict(category, technique, text, note, design_ref, engine)
+PAR_NOTE = ("The virtual backend (outside the repository) is a model of the environment of Parallel: it over-approximates what the "
+            "threading / multiprocessing / loky backends can do through the documented ParallelBackendBase contract (single callback "
+            "thread, free completion order, late completions after an abort, inline callback at submit). Pre-emption granularity is one "
+            "source line of joblib.parallel; Parallel._lock is swapped for a cooperative re-entrant lock and joblib.parallel.time for a "
+            "virtual clock (attribute rebinding, no source change). Small scope: n_jobs <= 3, N <= 7 tasks, stated pre-emption / deviation bounds.")
+
 CHECKS = {
+    "C01": dict(
+        category="model_checking",
+        engine="E1-pysched + E2-virtual-backend",
+        technique="stateless model checking of the real Parallel code: iterative pre-emption/deviation bounding over all interleavings of caller and completion-callback thread and all completion orders, under a controlled scheduler driven by sys.monitoring LINE events",
+        text="For each configuration (n_jobs x batch_size incl. 'auto' x pre_dispatch forms x return_as x N x input kind) every schedule within the bounds is executed on the real Parallel / BatchCompletionCallBack code and judged against the sequential reference (result list, each task executed exactly once, termination). This gives a coverage statement - no execution with <= PB pre-emptions and <= OB out-of-order completions violates the property - which the OS-scheduled test-suite cannot.",
+        note=PAR_NOTE,
+        design_ref="1.1, 1.2, 2/C01",
+    ),
     "C07": dict(
         category="exploration",
         engine="E4-enumerators",
@@ -78,6 +92,10 @@ def build():
 HOOK_COMMITS = []
 NOT_APPLICABLE = {}
 ENGINES = [
+    {"name": "E1-pysched", "path": "vf/pysched.py", "serves_properties": ["C01", "C04", "C09", "C16", "C17", "C11"],
+     "kind_free_text": "deviation-bounded stateless explorer for real Python threads (baton passing, sys.monitoring scheduling points, cooperative lock/clock, replayable choice lists)"},
+    {"name": "E2-virtual-backend", "path": "vf/parharness.py", "serves_properties": ["C01", "C04", "C09", "C16"],
+     "kind_free_text": "environment model of joblib.Parallel: ParallelBackendBase implementation whose completions, durations, late/inline callbacks are explorer decisions"},
     {"name": "E4-enumerators", "path": "vf/sigs.py, vf/values.py", "serves_properties": ["C02", "C03", "C06", "C07", "C08", "C13", "C14", "C18", "C19"],
      "kind_free_text": "bounded-exhaustive generators (signatures, call shapes, typed value universe, operation sequences) with boring reference models"},
 ]
